@@ -1,25 +1,46 @@
+//! vx — trusted primitives that stand for the crate's unsafe idioms inside woven (verified) functions.
+//! Each body is the original idiom; each `requires` is the documented safety contract of the std
+//! function it wraps (`ptr::add` stays inside the allocation, `from_raw_parts` covers initialised memory of
+//! the same allocation, a dereference is in bounds); each `ensures` is the value the idiom yields.
+//! The value specs of the byte-order readers are additionally proved by full-domain Kani harnesses
+//! (kani/src/h_vxlib.rs) on the real helper functions.
 #[allow(unused_imports)]
 use vstd::prelude::*;
 verus! {
+
 #[verifier::external_type_specification]
 #[verifier::external_body]
 #[verifier::accept_recursive_types(T)]
 pub struct ExArrayVec<T, const CAP: usize>(arrayvec::ArrayVec<T, CAP>);
+
 #[verifier::external_type_specification]
 #[verifier::external_body]
 pub struct ExIpv6Addr(core::net::Ipv6Addr);
+
 #[verifier::external_type_specification]
 #[verifier::external_body]
 pub struct ExIpv4Addr(core::net::Ipv4Addr);
+
+/// big-endian 16 bit word as a machine integer (for postconditions written with shifts and masks as in the RFC diagrams)
+pub open spec fn u16be(s: Seq<u8>, i: int) -> u16 { ((s[i] as u16) * 256 + (s[i + 1] as u16)) as u16 }
+pub open spec fn u32be(s: Seq<u8>, i: int) -> u32 { be32_spec(s, i) as u32 }
+
+pub open spec fn be16_spec(s: Seq<u8>, i: int) -> int { s[i] as int * 256 + s[i + 1] as int }
+pub open spec fn be32_spec(s: Seq<u8>, i: int) -> int {
+    ((s[i] as int * 256 + s[i + 1] as int) * 256 + s[i + 2] as int) * 256 + s[i + 3] as int
+}
+
 #[verifier::external_body]
 pub fn be_u16_at(s: &[u8], off: usize) -> (r: u16)
     requires off + 2 <= s@.len(),
     ensures r == (s@[off as int] as u16) * 256 + (s@[off as int + 1] as u16),
+        r as int == be16_spec(s@, off as int),
 { unsafe { crate::get_unchecked_be_u16(s.as_ptr().add(off)) } }
 
 #[verifier::external_body]
 pub fn be_u32_at(s: &[u8], off: usize) -> (r: u32)
     requires off + 4 <= s@.len(),
+    ensures r as int == be32_spec(s@, off as int),
 { unsafe { crate::get_unchecked_be_u32(s.as_ptr().add(off)) } }
 
 #[verifier::external_body]
@@ -29,9 +50,62 @@ pub fn raw_parts<'a>(s: &'a [u8], off: usize, n: usize) -> (r: &'a [u8])
 { unsafe { core::slice::from_raw_parts(s.as_ptr().add(off), n) } }
 
 #[verifier::external_body]
+pub fn arr4_at(s: &[u8], off: usize) -> (r: [u8; 4])
+    requires off + 4 <= s@.len(),
+    ensures r@ == s@.subrange(off as int, off + 4),
+{ unsafe { crate::get_unchecked_4_byte_array(s.as_ptr().add(off)) } }
+
+#[verifier::external_body]
+pub fn arr6_at(s: &[u8], off: usize) -> (r: [u8; 6])
+    requires off + 6 <= s@.len(),
+    ensures r@ == s@.subrange(off as int, off + 6),
+{ unsafe { crate::get_unchecked_6_byte_array(s.as_ptr().add(off)) } }
+
+#[verifier::external_body]
+pub fn arr8_at(s: &[u8], off: usize) -> (r: [u8; 8])
+    requires off + 8 <= s@.len(),
+    ensures r@ == s@.subrange(off as int, off + 8),
+{ unsafe { crate::get_unchecked_8_byte_array(s.as_ptr().add(off)) } }
+
+#[verifier::external_body]
+pub fn arr16_at(s: &[u8], off: usize) -> (r: [u8; 16])
+    requires off + 16 <= s@.len(),
+    ensures r@ == s@.subrange(off as int, off + 16),
+{ unsafe { crate::get_unchecked_16_byte_array(s.as_ptr().add(off)) } }
+
+#[verifier::external_body]
 pub fn u16_from_be_bytes(b: [u8; 2]) -> (r: u16)
     ensures r == (b[0] as u16) * 256 + (b[1] as u16),
 { u16::from_be_bytes(b) }
 
+#[verifier::external_body]
+pub fn u32_from_be_bytes(b: [u8; 4]) -> (r: u32)
+    ensures r as int == ((b[0] as int * 256 + b[1] as int) * 256 + b[2] as int) * 256 + b[3] as int,
+{ u32::from_be_bytes(b) }
+
+/// native-endian 16 bit word; the checksum proofs are parametric in the byte order through `ne16`
+pub open spec fn ne16(lo: u8, hi: u8) -> int { if cfg_le() { lo as int + 256 * (hi as int) } else { 256 * (lo as int) + hi as int } }
+pub uninterp spec fn cfg_le() -> bool;
+
+#[verifier::external_body]
+pub fn u16_from_ne_bytes(b: [u8; 2]) -> (r: u16)
+    ensures r as int == ne16(b[0], b[1]),
+{ u16::from_ne_bytes(b) }
+
+#[verifier::external_body]
+pub fn u32_from_ne_bytes(b: [u8; 4]) -> (r: u32)
+    ensures r as int == if cfg_le() { ne16(b[0], b[1]) + 65536 * ne16(b[2], b[3]) } else { 65536 * ne16(b[0], b[1]) + ne16(b[2], b[3]) },
+{ u32::from_ne_bytes(b) }
+
+#[verifier::external_body]
+pub fn u64_from_ne_bytes(b: [u8; 8]) -> (r: u64)
+    ensures r as int == if cfg_le() {
+            ne16(b[0], b[1]) + 65536 * (ne16(b[2], b[3]) + 65536 * (ne16(b[4], b[5]) + 65536 * ne16(b[6], b[7])))
+        } else {
+            ((ne16(b[0], b[1]) * 65536 + ne16(b[2], b[3])) * 65536 + ne16(b[4], b[5])) * 65536 + ne16(b[6], b[7])
+        },
+{ u64::from_ne_bytes(b) }
+
 pub proof fn lemma_u8_and_le(x: u8, m: u8) ensures (x & m) <= m { assert((x & m) <= m) by(bit_vector); }
-}
+
+} // verus!
